@@ -65,6 +65,11 @@ func runC03(r *Run) {
 
 	r.Rule("C03.R7")
 	c03SCTList(r)
+
+	r.Rule("C03.R8")
+	c03RawChain(r)
+	r.Rule("C03.R9")
+	c03SCTListReader(r)
 }
 
 // c03OID checks the value of an OID variable from its initialiser.
